@@ -7,7 +7,7 @@ use proc_macro2::TokenStream;
 use quote::{format_ident, quote};
 
 use super::{
-    common::{check_ident, generate_rule_parse_function, safe_ident},
+    common::{check_ident, check_name, generate_rule_parse_function, safe_ident},
     CodegenSettings,
 };
 use crate::grammar::{CharRule, CharRulePart};
@@ -35,7 +35,7 @@ impl CharRulePart {
 impl CharRule {
     pub fn generate_code(&self, settings: &CodegenSettings) -> Result<TokenStream> {
         let name = &self.name;
-        check_ident(name)?;
+        check_name(name)?;
         for part in self.directives.iter().flat_map(|d| &d.function) {
             check_ident(part)?;
         }
